@@ -62,7 +62,7 @@ PROPS = {
         "assumptions": LP_ASSUME + ["both builds are compiled from /repo's current working tree; the JSON build runs as a co-process (harness/tools/lpexec)",
                                     "generator restricted to the classes the statement names (precision -1, 4/16-byte IPs, 6-byte MACs, minute-resolution zones, sub-second instants within +-2^32 s)"],
         "claim": {"ref": "DESIGN.md §5 C08", "technique": "differential property-based testing (rapid): the same generated logging program runs under both build tags; decoded CBOR is compared value-wise with the JSON build's line",
-                  "text": "Generated-input search with a differential oracle: each generated program is executed in the binary_log build (CBOR -> bundled decoder -> JSON text, which must itself be one valid JSON line) and in a co-process built from the same tree without the tag; keys must agree in order and values must be equal as decoded values (integers exactly, floats to the same float, text after unescaping, timestamps within 1 microsecond). Held on everything explored.",
+                  "text": "Generated-input search with a differential oracle: each generated program is executed in the binary_log build (CBOR -> bundled decoder -> JSON text, which must itself be one valid JSON line) and in a co-process built from the same tree without the tag; keys must agree in order and values must be equal as decoded values (integers exactly, floats to the same float, text after unescaping, timestamps within 1 microsecond); the generated programs also run as a GOARCH=386 build of both sides. Held on everything explored (one genuine defect found this way was repaired: D15, negative integers cut to 32 bits by the decoder on 32-bit platforms).",
                   "note": "Trusts the harness comparator (time-equivalence is tried only where the two sides differ textually), jsonref, the Go time package."},
     },
     "C09": {
@@ -281,3 +281,42 @@ PROPS["C10"]["jobs"] = PROPS["C10"]["jobs"] + [
 ]
 PROPS["C10"]["assumptions"] = PROPS["C10"]["assumptions"] + ["real-runtime jobs (native and GOARCH=386): only the interleavings the Go scheduler happens to produce; they add the platform dimension (32-bit alignment and int width), not schedule coverage"]
 PROPS["C11"]["jobs"] = PROPS["C11"]["jobs"] + [{"name": "fatal-path", "pkg": "./c11", "run": "^TestFatalDrains$", "timeout": T(600, 600)}]
+
+# ---- 32-bit builds (GOARCH=386, run on this machine): alignment of 64-bit atomics and the width of int/uint
+PROPS["C13"]["jobs"] = PROPS["C13"]["jobs"] + [
+    {"name": "compositions-386", "pkg": "./c13", "goarch": "386", "run": "^TestRapidCompositions$", "rapid": T(4000, 40000), "shards": T(1, 4)},
+    {"name": "concurrent-386", "pkg": "./c13", "goarch": "386", "run": "^TestConcurrentBasic$", "rapid": T(60, 600)},
+]
+import copy as _copy
+
+
+def _add386(pid, names=None, thorough_only=False, rapid_div=4):
+    """Clone jobs of pid as GOARCH=386 builds (by name; None = every plain job)."""
+    extra = []
+    for j in PROPS[pid]["jobs"]:
+        if j.get("sched") or j.get("race") or j.get("fuzz") or j.get("goarch"):
+            continue
+        if names is not None and j["name"] not in names:
+            continue
+        c = _copy.deepcopy(j)
+        c["name"] += "-386"
+        c["goarch"] = "386"
+        c.pop("replay", None)
+        if c.get("rapid"):
+            c["rapid"] = {k: max(100, v // rapid_div) for k, v in c["rapid"].items()}
+        if isinstance(c.get("shards"), dict):
+            c["shards"] = {k: max(1, v // 4) for k, v in c["shards"].items()}
+        if thorough_only:
+            c["thorough_only"] = True
+        extra.append(c)
+    PROPS[pid]["jobs"] = PROPS[pid]["jobs"] + extra
+    PROPS[pid]["assumptions"] = PROPS[pid]["assumptions"] + ["jobs named *-386 run the same harness as a GOARCH=386 build (CGO off) on this machine: int and uint have 32 bits there and 64-bit atomics need 8-byte alignment" + ("; thorough tier only" if thorough_only else "")]
+
+
+_add386("C02", ["rapid-values"])
+_add386("C09", ["rapid"])
+_add386("C08", ["rapid", "regress"])  # the JSON-build co-process is built for the same GOARCH
+_add386("C04", None, rapid_div=1)
+_add386("C07", ["json"])
+for _p in ("C01", "C03", "C05", "C14", "C15", "C16", "C17", "C18", "C19"):
+    _add386(_p, None, thorough_only=True)
